@@ -39,6 +39,21 @@ theorem close_calls_ok : SourceOk := by decide
 a caller is a chunk list. -/
 theorem callers_ok : Gen.AtomicFile.callers.all callerOk = true ∧ Gen.AtomicFile.callers ≠ [] := by decide
 
+/-- **direct_writers_known.**  Nothing in src/ or plugins/__init__.py opens a file for writing
+behind AtomicFile's back except the known record-level / journal writers; in particular the flush
+routines of ircdb.py and registry.py contain no direct `open(..., 'w'|'a'|'r+')`. -/
+theorem direct_writers_known :
+    Gen.Writers.directWriters.map (fun r => (r.1, r.2.1, r.2.2.2)) = knownDirectWriters := by decide
+
+/-- **atomic_sites_cover.**  The AtomicFile call sites of the anchored files found by the general
+inventory are exactly the callers `callers_ok` speaks about (same files, same functions). -/
+theorem atomic_sites_cover :
+    let found := Gen.Writers.atomicSites.filter fun s => anchoredFiles.contains s.1
+    let claimed := Gen.AtomicFile.callers.map fun r => (r.1, r.2.1)
+    (found.all fun s => claimed.contains s) = true ∧ (claimed.all fun s => found.contains s) = true ∧
+      found.length = claimed.length := by
+  decide
+
 /-! ### names: temporary files are never the file a loader opens -/
 
 /-- Loaders open exactly `filename`; the temp file and the cross-device sibling copy have other
@@ -136,6 +151,27 @@ theorem history_versions (T : Path) (as : List Attempt) (h : ∀ a ∈ as, Attem
       · rw [ha] at e0; cases e0
       · rw [ha] at e0; cases e0
 
+/-! ### several files in one `world.flush()` -/
+
+/-- **multi_flush_atomic.**  `world.flush()` (and the periodic flusher) writes several files one
+after the other — users, channels, networks, ignores, userdata.conf.  Whatever the number of
+file-system calls after which the process dies, *each* of these files is, individually, entirely its
+old or entirely its new version: files whose turn has not come are untouched, files already done
+stay done.  (No cross-file atomicity is claimed — nor needed: no core loader reads a reference into
+another file.) -/
+theorem multi_flush_atomic (js : List (Cfg × List (Bytes × Nat))) (fs : FS)
+    (hok : ∀ j ∈ js, CfgOk j.1) (hsep : Separate js) (k : Nat) :
+    ∀ j ∈ js, Good (fs.disk j.1.filename) (newContent j.2)
+      ((crashAt fs (multiOps fs js) k).disk j.1.filename) := by
+  intro j hj
+  exact multi_spec js fs (fun j hj => ⟨(hok j hj).distinct, (hok j hj).block⟩) hsep j hj k
+
+/-- two files are independent as soon as neither name is the other followed by `.something`
+(users.conf / channels.conf / networks.conf / ignores.conf / userdata.conf / the registry file) -/
+theorem files_independent (c : Cfg) (h : CfgOk c) {T : Path} (hf : c.filename ≠ T)
+    (hp : ∀ x, basename T ≠ basename c.filename ++ '.' :: x) : Indep c T :=
+  indep_of_names c h.token h.token2 h.now hf hp
+
 /-! ### non-vacuity and the recorded counter-example of the repaired defect -/
 
 def witnessFS : FS := { disk := upd (fun _ => none) ['u'] (some [1, 2, 3]), bufs := fun _ => none }
@@ -148,6 +184,11 @@ example : (crashAt witnessFS (flushOps witnessCfg witnessWrites witnessFS) 10).d
 example : (run witnessFS (flushOps witnessCfg witnessWrites witnessFS)).disk ['u'] = some [7, 8, 9] := by
   decide
 example : AttemptOk ['u'] ⟨witnessCfg, witnessWrites, .dies 9⟩ := ⟨rfl, by decide⟩
+/-- two files flushed in a row, killed in the middle of the second flush: the first is new, the second old -/
+example :
+    let c2 : Cfg := { witnessCfg with filename := ['c'], sameDevice := true }
+    let fs := run witnessFS (multiOps witnessFS [(witnessCfg, witnessWrites), (c2, [([5], 0)])] |>.take 23)
+    fs.disk ['u'] = some [7, 8, 9] ∧ fs.disk ['c'] = none := by decide
 
 /-- the flush as it was before the repair of `close()` (final step `shutil.move`) -/
 def flushOpsOld (c : Cfg) (ws : List (Bytes × Nat)) : List Op :=
@@ -169,5 +210,76 @@ theorem cross_device_counter :
   rw [e]
   unfold Good
   decide
+
+/-! ### the in-place record writers of `dbi.FlatfileMapping` (not AtomicFile; outside the flushes the
+property enumerates, recorded as finding C17-inplace-record-writers) -/
+
+namespace Flat
+
+theorem writeAt_end (disk d : Bytes) : writeAt disk disk.length d = disk ++ d := by
+  unfold writeAt
+  simp
+
+/-- **flat_add_states.**  `FlatfileMapping.add` killed after any number of calls leaves the old file,
+the new file, or a third state: the record appended while the id counter at the top still has its
+old value. -/
+theorem flat_add_states (disk line hdr : Bytes) (k : Nat) :
+    crashAt disk (addOps line hdr) k = disk ∨ crashAt disk (addOps line hdr) k = disk ++ line ∨
+    crashAt disk (addOps line hdr) k = writeAt (disk ++ line) 0 hdr := by
+  unfold crashAt addOps
+  by_cases hl : line = []
+  · subst hl
+    by_cases hh : hdr = []
+    · subst hh
+      match k with
+      | 0 | 1 | 2 | 3 | 4 => left; simp [run, step, flushH, openRW]
+      | n + 5 => left; simp [run, step, flushH, openRW]
+    · match k with
+      | 0 | 1 | 2 | 3 | 4 => left; simp [run, step, flushH, openRW, hh]
+      | n + 5 => right; right; simp [run, step, flushH, openRW, hh]
+  · by_cases hh : hdr = []
+    · subst hh
+      match k with
+      | 0 | 1 | 2 => left; simp [run, step, flushH, openRW, hl]
+      | 3 | 4 => right; left; simp [run, step, flushH, openRW, hl, writeAt_end]
+      | n + 5 => right; left; simp [run, step, flushH, openRW, hl, writeAt_end]
+    · match k with
+      | 0 | 1 | 2 => left; simp [run, step, flushH, openRW, hl]
+      | 3 | 4 => right; left; simp [run, step, flushH, openRW, hl, writeAt_end]
+      | n + 5 => right; right; simp [run, step, flushH, openRW, hl, hh, writeAt_end]
+
+/-- **flat_remove_atomic.**  `remove` is one in-place write: old or new, nothing in between. -/
+theorem flat_remove_atomic (disk blank : Bytes) (off k : Nat) :
+    crashAt disk (removeOps off blank) k = disk ∨ crashAt disk (removeOps off blank) k = writeAt disk off blank := by
+  unfold crashAt removeOps
+  by_cases hb : blank = []
+  · subst hb
+    match k with
+    | 0 | 1 | 2 | 3 | 4 => left; simp [run, step, flushH, openRW]
+    | n + 5 => left; simp [run, step, flushH, openRW]
+  · match k with
+    | 0 | 1 | 2 | 3 => left; simp [run, step, flushH, openRW, hb]
+    | 4 => right; simp [run, step, flushH, openRW, hb]
+    | n + 5 => right; simp [run, step, flushH, openRW, hb]
+
+/-- **flat_add_counter** (finding C17-inplace-record-writers).  The third state is real and is
+neither version: "0004\n…" + the record 0004 — a file that loads, whose counter says the next id is
+4 while a record 4 already exists (the next `add` creates a second record 4).  `set` has the
+mirror-image window (old record blanked, new one not yet appended: the record is gone). -/
+theorem flat_add_counter :
+    let old : Bytes := [48, 52, 10, 48, 51, 58, 97, 10]          -- "04\n03:a\n"
+    let line : Bytes := [48, 52, 58, 98, 10]                      -- "04:b\n"
+    let hdr : Bytes := [48, 53]                                   -- "05"
+    crashAt old (addOps line hdr) 3 ≠ old ∧
+    crashAt old (addOps line hdr) 3 ≠ crashAt old (addOps line hdr) 5 ∧
+    crashAt old (addOps line hdr) 3 = old ++ line := by decide
+
+theorem flat_set_counter :
+    let old : Bytes := [48, 52, 10, 48, 51, 58, 97, 10]
+    crashAt old (setOps 3 [45, 45] [48, 51, 58, 65, 10]) 5 = [48, 52, 10, 45, 45, 58, 97, 10] ∧
+    crashAt old (setOps 3 [45, 45] [48, 51, 58, 65, 10]) 7 = [48, 52, 10, 45, 45, 58, 97, 10, 48, 51, 58, 65, 10] := by
+  decide
+
+end Flat
 
 end C17
